@@ -689,7 +689,7 @@ fn jb_cases(rng: &mut Rng, n: usize, out: &mut Vec<JbCase>) {
         let kind = match rng.below(7) {
             0 => "jb_valid",
             1 => { let k = rng.below(d.len() as u64 + 1) as usize; d.truncate(k); "jb_truncated" }
-            2 => { let v = rng.next() as u32; if d.len() >= 4 { put(&mut d, 0, &le((v & 0x0FFF_FFFF) as u64 | ((d[3] as u64 & 0xF0) << 24), 4)); } "jb_count_edit" }
+            2 => { let v = rng.next() as u32; if d.len() >= 4 { let hi = (d[3] as u64 & 0xF0) << 24; put(&mut d, 0, &le((v & 0x0FFF_FFFF) as u64 | hi, 4)); } "jb_count_edit" }
             3 => { let n = d.len(); if n > 4 { let k = 4 + rng.below(((n - 4) / 4).max(1) as u64) as usize * 4; let t = rng.bytes(4); put(&mut d, k, &t); } "jb_entry_edit" }
             4 => { let n = d.len(); if n > 0 { let k = rng.below(n as u64) as usize; d[k] ^= 1 << rng.below(8); } "jb_bitflip" }
             5 => { let l = rng.below(24) as usize; d = rng.bytes(l); "jb_random" }
@@ -777,11 +777,12 @@ fn build_templates(base: &Path) {
 }
 
 #[derive(Clone, Debug)]
-enum Edit { Set(u64, Vec<u8>), Fill(u64, u64, u8), Trunc(u64), Ext(Vec<u8>), Copy(u64, u64, u64) }
+enum Edit { Set(u64, Vec<u8>), Fill(u64, u64, u8), Trunc(u64), Ext(Vec<u8>), Copy(u64, u64, u64), Find(Vec<u8>, u64, Vec<u8>) }
 fn edits_line(es: &[Edit]) -> String {
     es.iter().map(|e| match e {
         Edit::Set(o, b) => format!("set:{}:{}", o, hex(b)), Edit::Fill(o, n, b) => format!("fill:{}:{}:{}", o, n, b),
         Edit::Trunc(n) => format!("trunc:{}", n), Edit::Ext(b) => format!("ext:{}", hex(b)), Edit::Copy(a, b, n) => format!("copy:{}:{}:{}", a, b, n),
+        Edit::Find(p, d, b) => format!("find:{}:{}:{}", hex(p), d, hex(b)),
     }).collect::<Vec<_>>().join(";")
 }
 fn parse_edits(s: &str) -> Vec<Edit> {
@@ -794,6 +795,7 @@ fn parse_edits(s: &str) -> Vec<Edit> {
             Some("trunc") => Some(Edit::Trunc(n(1))),
             Some("ext") => Some(Edit::Ext(unhex(p.get(1).copied().unwrap_or("")))),
             Some("copy") => Some(Edit::Copy(n(1), n(2), n(3).min(1 << 22))),
+            Some("find") => Some(Edit::Find(unhex(p.get(1).copied().unwrap_or("")), n(2), unhex(p.get(3).copied().unwrap_or("")))),
             _ => None,
         }
     }).collect()
@@ -807,6 +809,12 @@ fn apply_edits(path: &Path, es: &[Edit]) {
             Edit::Trunc(n) => d.truncate(*n as usize),
             Edit::Ext(b) => d.extend_from_slice(b),
             Edit::Copy(a, b, n) => { for k in 0..*n as usize { let (i, j) = (*a as usize + k, *b as usize + k); if i < d.len() && j < d.len() { d[j] = d[i]; } } }
+            // the first occurrence of a byte pattern, then bytes written `delta` behind its start
+            Edit::Find(p, delta, b) => {
+                if !p.is_empty() { if let Some(at) = d.windows(p.len()).position(|w| w == &p[..]) {
+                    for (k, x) in b.iter().enumerate() { let i = at + *delta as usize + k; if i < d.len() { d[i] = *x; } }
+                } }
+            }
         }
     }
     let _ = std::fs::write(path, d);
@@ -947,15 +955,31 @@ fn file_kind(f: &str) -> u32 {
 /// of a page), 4 elsewhere in a page, 5 truncation, 6 extension, 7 page copy
 fn region(e: &Edit) -> u32 {
     let at = |o: u64| if o < 128 { 1 } else if o % 16384 < 16 { 2 } else if o % 16384 < 1024 { 3 } else { 4 };
-    match e { Edit::Set(o, _) => at(*o), Edit::Fill(o, _, _) => at(*o), Edit::Trunc(_) => 5, Edit::Ext(_) => 6, Edit::Copy(..) => 7 }
+    match e { Edit::Set(o, _) => at(*o), Edit::Fill(o, _, _) => at(*o), Edit::Trunc(_) => 5, Edit::Ext(_) => 6, Edit::Copy(..) => 7, Edit::Find(..) => 8 }
 }
 fn db_feat(c: &DbCase) -> Vec<u64> {
     let e = c.es.first();
-    let off = match e { Some(Edit::Set(o, _)) | Some(Edit::Fill(o, _, _)) => *o, Some(Edit::Trunc(n)) => *n, _ => 0 };
+    // a pattern edit lands somewhere in the body of the file: reported as offset 128 (behind the file header)
+    let off = match e { Some(Edit::Set(o, _)) | Some(Edit::Fill(o, _, _)) => *o, Some(Edit::Trunc(n)) => *n, Some(Edit::Find(..)) => 128, _ => 0 };
     vec![file_kind(&c.f) as u64, e.map(region).unwrap_or(0) as u64, c.t as u64, off / 16384, off % 16384]
 }
 const ODD16: [u64; 14] = [0, 1, 15, 16, 24, 2045, 2046, 4096, 8191, 16383, 16384, 16385, 32768, 65535];
-fn gen_db_case(rng: &mut Rng, files: &[Vec<(String, u64)>]) -> DbCase {
+/// the byte range of the value of a random cell of a leaf page of the template file, if the page is a leaf with cells
+fn cell_value_range(base: &Path, t: u32, f: &str, pg: u64, rng: &mut Rng) -> Option<(u64, u64)> {
+    use std::io::{Read, Seek, SeekFrom};
+    let mut file = std::fs::File::open(base.join(format!("tmpl{}", t)).join(f)).ok()?;
+    file.seek(SeekFrom::Start(pg * 16384)).ok()?;
+    let mut page = vec![0u8; PAGE];
+    file.read_exact(&mut page).ok()?;
+    let leaf = LeafNode::from_page(&page).ok()?;
+    let n = leaf.cell_count() as u64;
+    if n == 0 || n > 2000 { return None; }
+    let i = rng.below(n) as usize;
+    let v = leaf.value_at(i).ok()?;
+    let start = v.as_ptr() as usize - page.as_ptr() as usize;
+    Some((pg * 16384 + start as u64, v.len() as u64))
+}
+fn gen_db_case(rng: &mut Rng, files: &[Vec<(String, u64)>], base: &Path) -> DbCase {
     let t = if rng.chance(1, 4) { 1 } else { 0 };
     let fs = &files[t as usize];
     // weight small control files up, they are few among many page files
@@ -965,9 +989,21 @@ fn gen_db_case(rng: &mut Rng, files: &[Vec<(String, u64)>]) -> DbCase {
             else { rng.pick(fs) };
     let len = f.1;
     let pages = (len / 16384).max(1);
-    let pg = rng.below(pages);
+    // page 0 carries the file header; the tree pages follow
+    let pg = if pages > 1 && rng.chance(4, 5) { 1 + rng.below(pages - 1) } else { rng.below(pages) };
     let off_in = |rng: &mut Rng| -> u64 { match rng.below(5) { 0 => rng.below(128.min(len.max(1))), 1 => pg * 16384 + rng.below(16), 2 => pg * 16384 + 16 + rng.below(200), _ => rng.below(len.max(1)) } };
-    let (es, kind): (Vec<Edit>, &'static str) = match rng.below(13) {
+    let (es, kind): (Vec<Edit>, &'static str) = match *rng.pick(&[0u64, 1, 2, 3, 4, 5, 5, 5, 6, 6, 6, 7, 8, 9, 10, 11, 12, 13, 13, 13]) {
+        13 => {
+            // the stored record (or index payload) of one cell: header length, null bitmap, offset table, first bytes
+            match cell_value_range(base, t, &f.0, pg, rng) {
+                Some((st, ln)) if ln > 0 => {
+                    let k = rng.below(ln.min(12));
+                    let v: Vec<u8> = match rng.below(4) { 0 => vec![255], 1 => vec![rng.next() as u8, rng.next() as u8], 2 => vec![0, 0, 0, 0], _ => vec![200] };
+                    (vec![Edit::Set(st + k, v)], "db_record_edit")
+                }
+                _ => { let o = off_in(rng); (vec![Edit::Set(o, vec![255, 255])], "db_random_bytes") }
+            }
+        }
         0 | 1 => { let o = off_in(rng); (vec![Edit::Set(o, vec![0]), Edit::Copy(o, o, 0)], "db_bitflip") }   // placeholder, replaced below
         2 => { let o = off_in(rng); let n = 1 + rng.below(8) as usize; (vec![Edit::Set(o, rng.bytes(n))], "db_random_bytes") }
         3 => { let n = *rng.pick(&[16u64, 128, 4096, 16384]); let o = if rng.chance(1, 2) { pg * 16384 } else { rng.below(len.max(1)) }; (vec![Edit::Fill(o, n, 0)], "db_zero_run") }
@@ -982,6 +1018,13 @@ fn gen_db_case(rng: &mut Rng, files: &[Vec<(String, u64)>]) -> DbCase {
         11 => { let a = rng.below(pages); (vec![Edit::Copy(a * 16384, pg * 16384, 16384)], "db_page_copy") }
         _ => { let o = pg * 16384 + 16 + rng.below(16368); let v: Vec<u8> = match rng.below(4) { 0 => vec![255; 9], 1 => vec![251, 255, 255, 255, 255], 2 => vec![249, 255, 255], _ => vec![250, 255, 255, 255] }; (vec![Edit::Set(o, v)], "db_varint") }
     };
+    let (es, kind) = if f.0 == "turdb.catalog" && rng.chance(1, 3) {
+        // the type byte behind a column name (u16 length + name): another valid DataType
+        let name = *rng.pick(&["id", "a", "b", "c", "d", "bo", "j", "x", "y", "k", "v", "n"]);
+        let mut pat = le(name.len() as u64, 2); pat.extend_from_slice(name.as_bytes());
+        let ty = *rng.pick(&[0u8, 1, 2, 3, 5, 10, 13, 20, 21, 22, 23, 31, 71]);
+        (vec![Edit::Find(pat, 2 + name.len() as u64, vec![ty])], "db_catalog_column_type")
+    } else { (es, kind) };
     let mut c = DbCase { t, f: f.0.clone(), es, kind };
     if kind == "db_bitflip" {
         // a bit flip needs the current byte: expressed as xor through the template's bytes at generation time
@@ -1002,8 +1045,21 @@ fn resolve_bitflips(cases: &mut [DbCase], base: &Path) {
 }
 /// harness-side classification of an exploration outcome (for `search` lines; authoritative: Corr/C23.v xp_class)
 fn db_class(feat: &[u64], o: &XOut) -> u32 {
-    let _ = (feat, o);
-    0
+    let fk = feat.first().copied().unwrap_or(0);
+    let off = feat.get(3).copied().unwrap_or(0) * 16384 + feat.get(4).copied().unwrap_or(0);
+    let page_file = matches!(fk, 3 | 4 | 5 | 7);
+    let (site, cls) = match o { XOut::Panic(m) => { let mut it = m.splitn(2, " | "); let loc = it.next().unwrap_or(""); (file_code(loc), msg_class(it.next().unwrap_or(""))) } _ => (0, 0) };
+    match o {
+        XOut::Panic(_) if page_file && site == 3 && cls == 4 => 8,
+        XOut::Panic(_) if page_file && site == 1 && (cls == 3 || cls == 4) => 9,
+        XOut::Panic(_) if page_file && site == 2 && cls == 4 => 10,
+        XOut::Panic(_) if page_file && (site == 9 || site == 22) && cls == 4 => 14,
+        XOut::Timeout if page_file => 12,
+        XOut::Panic(_) if fk == 2 && off < 80 && site == 0 && cls == 7 => 11,
+        XOut::Abort if fk == 2 && off < 80 => 11,
+        XOut::Panic(_) if fk == 2 && off >= 128 && (site == 9 || site == 22) && cls == 4 => 15,
+        _ => 0,
+    }
 }
 fn push_db(w: &mut CaseWriter, c: &DbCase, o: &XOut) {
     let f: Vec<String> = db_feat(c).iter().map(|x| x.to_string()).collect();
@@ -1024,7 +1080,7 @@ fn probe(a: &Args) {
     let (base, files) = template_files();
     for (t, fs) in files.iter().enumerate() { for (f, l) in fs { println!("tmpl{} {} {}", t, f, l); } }
     let mut rng = Rng::new(a.seed);
-    let mut cases: Vec<DbCase> = (0..a.budget.min(100_000) as usize).map(|_| gen_db_case(&mut rng, &files)).collect();
+    let mut cases: Vec<DbCase> = (0..a.budget.min(100_000) as usize).map(|_| gen_db_case(&mut rng, &files, &base)).collect();
     resolve_bitflips(&mut cases, &base);
     let outs = run_db_cases(&cases, 6, &base);
     let mut tally: BTreeMap<String, u32> = BTreeMap::new();
@@ -1091,7 +1147,7 @@ fn gen(a: &Args) {
     for c in &plan.jbs { let o = push_jb(&mut w, c); *sites.entry(format!("jsonb: {}", site_key(&o))).or_insert(0) += 1; }
     if plan.n_db > 0 || !plan.dbs.is_empty() {
         let (base, files) = template_files();
-        for _ in 0..plan.n_db { plan.dbs.push(gen_db_case(&mut rng, &files)); }
+        for _ in 0..plan.n_db { plan.dbs.push(gen_db_case(&mut rng, &files, &base)); }
         resolve_bitflips(&mut plan.dbs, &base);
         let nw = if plan.dbs.len() < 8 { 1 } else { 6 };
         let outs = run_db_cases(&plan.dbs, nw, &base);
@@ -1129,7 +1185,7 @@ fn search(a: &Args) {
     // corrupted database directories: a tenth of the budget, at most 3000
     let n_db = (budget / 10).clamp(50, 3000) as usize;
     let (base, files) = template_files();
-    let mut dbs: Vec<DbCase> = (0..n_db).map(|_| gen_db_case(&mut rng, &files)).collect();
+    let mut dbs: Vec<DbCase> = (0..n_db).map(|_| gen_db_case(&mut rng, &files, &base)).collect();
     resolve_bitflips(&mut dbs, &base);
     let outs = run_db_cases(&dbs, 6, &base);
     for (c, o) in dbs.iter().zip(outs.iter()) {
